@@ -18,16 +18,21 @@ theorem Sim.flat_plain {keep : Id → Bool} {b : Bool} {now : τ} {N F : List (R
   | leaf _ hp _ _ _ ih => simp [RT.plainLeaf, hp, ih]
   | group _ _ _ _ _ ih1 ih2 => simp [List.all_append, ih1, ih2]
 
+/-- `tymer.expired` for the limit timer -/
+def limitHit (stopAt : Option τ) (t : τ) : Bool :=
+  match stopAt with | some s => decide (s ≤ t) | none => false
+
 theorem doLoop_succ_ok {pool : List (Spec τ)} {tock : τ} {stopAt : Option τ} {fuel n : Nat} {now : τ}
     {deeds : List (RT τ)} {doers : List Id} {es : List (Ev τ)} {un : List (RT τ)} {c : Cyc τ}
     (h : runCycle pool now tock 0 deeds { doers := doers } = (es, un, c, none)) :
     doLoop pool tock stopAt (fuel+1) n now deeds doers =
       if c.pr.isEmpty then ⟨es ++ stopEvs (now + tock) [], true, now + tock, false, false, c.doers, n+1⟩
-      else if (match stopAt with | some s => decide (s ≤ now + tock) | none => false) then
+      else if limitHit stopAt (now + tock) then
         ⟨es ++ stopEvs (now + tock) c.pr, false, now + tock, false, false, c.doers, n+1⟩
       else { doLoop pool tock stopAt fuel (n+1) (now + tock) c.pr c.doers with
               evs := es ++ (doLoop pool tock stopAt fuel (n+1) (now + tock) c.pr c.doers).evs } := by
-  rw [doLoop]; simp only [h]
+  rw [doLoop]; simp only [h, limitHit]
+  rfl
 
 theorem keepView_stopEvs {keep : Id → Bool} {b : Bool} {now : τ} {N F : List (RT τ)} (h : Sim keep b now N F) (t : τ) :
     keepView keep (stopEvs t N) = keepView keep (stopEvs t F) := by
@@ -72,12 +77,94 @@ theorem Sim.doLoop {keep : Id → Bool} {tock : τ} (h0 : 0 ≤ tock) (pool : Li
       simp only [keepView_append, hview, hvF]
     | false =>
       simp only [Bool.false_eq_true, if_false]
-      split
-      · refine ⟨?_, rfl, rfl, rfl, rfl, rfl⟩
+      cases limitHit stopAt (now + tock)
+      rotate_left
+      · simp only [if_true]
+        refine ⟨?_, rfl, rfl, rfl, rfl, rfl⟩
         simp only [keepView_append, hview, hvF, keepView_stopEvs hsim]
-      · obtain ⟨e1, e2, e3, e4, e5, e6⟩ := ih (n+1) (now + tock) true N' (flatNext now tock F) dN dF hsim
+      · simp only [Bool.false_eq_true, if_false]
+        obtain ⟨e1, e2, e3, e4, e5, e6⟩ := ih (n+1) (now + tock) true N' (flatNext now tock F) dN dF hsim
         refine ⟨?_, e2, e3, e4, e5, e6⟩
         simp only [keepView_append, hview, hvF, e1]
 
 end laws
+
+/-! ### the enter phase -/
+
+theorem enterList_append_ok (now : τ) : ∀ (a b : List (Spec τ)) {ea eb : List (Ev τ)} {Fa Fb : List (RT τ)},
+    enterList now a = (ea, Fa, false) → enterList now b = (eb, Fb, false) →
+    enterList now (a ++ b) = (ea ++ eb, Fa ++ Fb, false)
+  | [], b, ea, eb, Fa, Fb, ha, hb => by
+      rw [enterList] at ha
+      simp only [Prod.mk.injEq] at ha
+      obtain ⟨rfl, rfl, _⟩ := ha
+      simpa using hb
+  | s :: ss, b, ea, eb, Fa, Fb, ha, hb => by
+      rw [enterList] at ha
+      simp only [List.cons_append]
+      rw [enterList]
+      rcases hs : enterSpec now s with ⟨e, r, raised⟩
+      rw [hs] at ha
+      cases raised with
+      | true => simp at ha
+      | false =>
+        simp only at ha ⊢
+        rcases hss : enterList now ss with ⟨e2, rs, b2⟩
+        rw [hss] at ha
+        simp only [Prod.mk.injEq] at ha
+        obtain ⟨rfl, rfl, rfl⟩ := ha
+        rw [enterList_append_ok now ss b hss hb]
+        simp [List.append_assoc]
+
+section laws2
+variable [LawfulTyme τ]
+
+/-- entering a forest and entering its flattening: same leaf events in the same order, related deques -/
+theorem Flattens.enter {keep : Id → Bool} {p q : List (Spec τ)} (h : Flattens keep p q)
+    (hG : Spec.allStepsL g04 p = true) (start : τ) :
+    ∃ esP N0 esQ F0, enterList start p = (esP, N0, false) ∧ enterList start q = (esQ, F0, false)
+      ∧ keepView keep esP = esQ ∧ Sim keep false start N0 F0 := by
+  induction h with
+  | nil => exact ⟨[], [], [], [], by rw [enterList], by rw [enterList], rfl, Sim.nil⟩
+  | @leaf i act steps p q hk hp hact _ ih =>
+    simp only [Spec.allStepsL, Spec.allSteps, Bool.and_eq_true] at hG
+    obtain ⟨esP, N0, esQ, F0, hP, hQ, hv, hs⟩ := ih hG.2
+    have hkv : ∀ (l : List (Ev τ)), (∀ e ∈ l, e.id = i) → keepView keep l = l :=
+      fun l hl => keepView_all (fun e he => by rw [hl e he]; exact hk)
+    cases act with
+    | fail => exact absurd hact (by simp)
+    | ok =>
+      refine ⟨[ev i (.flag false) start, ev i .enter start] ++ esP, .leaf i start steps :: N0,
+        [ev i (.flag false) start, ev i .enter start] ++ esQ, .leaf i start steps :: F0, ?_, ?_, ?_, ?_⟩
+      · rw [enterList, enterSpec]; simp [hP]
+      · rw [enterList, enterSpec]; simp [hQ]
+      · rw [keepView_append, hv, hkv _ (by simp [ev])]
+      · exact Sim.leaf hk hp hG.1 (Or.inl rfl) hs
+    | done v =>
+      refine ⟨[ev i (.flag false) start, ev i .enter start] ++ [ev i .clean start, ev i .exit start] ++ flagEvs i v start ++ esP, N0,
+        [ev i (.flag false) start, ev i .enter start] ++ [ev i .clean start, ev i .exit start] ++ flagEvs i v start ++ esQ, F0, ?_, ?_, ?_, hs⟩
+      · rw [enterList, enterSpec]; simp [hP]
+      · rw [enterList, enterSpec]; simp [hQ]
+      · rw [keepView_append, hv, hkv]
+        intro e he
+        simp only [List.mem_append, List.mem_cons, List.not_mem_nil, or_false] at he
+        rcases he with ((h | h) | (h | h)) | h
+        · simp [h, ev]
+        · simp [h, ev]
+        · simp [h, ev]
+        · simp [h, ev]
+        · exact flagEvs_ids _ _ _ _ h
+  | @group i pool kids p q1 q2 hk _ _ ih1 ih2 =>
+    simp only [Spec.allStepsL, Spec.allSteps, Bool.and_eq_true] at hG
+    obtain ⟨esK, NK, esQ1, F1, hK, hQ1, hv1, hs1⟩ := ih1 hG.1
+    obtain ⟨esP, N0, esQ2, F2, hP, hQ2, hv2, hs2⟩ := ih2 hG.2
+    refine ⟨[ev i (.flag false) start, ev i .enter start] ++ esK ++ esP,
+      .group i start 0 false pool (kids.map Spec.id) NK :: N0, esQ1 ++ esQ2, F1 ++ F2, ?_, ?_, ?_, ?_⟩
+    · rw [enterList, enterSpec]; simp [hK, hP]
+    · exact enterList_append_ok start q1 q2 hQ1 hQ2
+    · simp only [keepView_append, hv1, hv2]
+      simp [keepView, ev, hk]
+    · exact Sim.group hk (LawfulTyme.le_refl start) (fun h => by simp at h) hs1 hs2
+
+end laws2
 end Hio.Sched
